@@ -678,3 +678,27 @@ pub fn explode<O: Lbl, A: Lbl>(p: &POh<O, A>) -> PLax<O, A> {
     }
     PLax { w, e, s: p.s.clone(), t: p.t.clone(), q }
 }
+
+/// the same lax diagram with node `i` renamed to `np[i]` (hyperedges, interfaces and pending pairs follow)
+pub fn renumber_lax<O: Lbl, A: Lbl>(p: &PLax<O, A>, np: &[usize]) -> PLax<O, A> {
+    let mut w: Vec<Option<O>> = vec![None; p.w.len()];
+    for (i, l) in p.w.iter().enumerate() {
+        w[np[i]] = Some(l.clone());
+    }
+    let m = |v: &Vec<usize>| -> Vec<usize> { v.iter().map(|&x| np[x]).collect() };
+    PLax {
+        w: w.into_iter().map(|x| x.expect("permutation")).collect(),
+        e: p.e.iter().map(|e| PEdge { l: e.l.clone(), s: m(&e.s), t: m(&e.t) }).collect(),
+        s: m(&p.s),
+        t: m(&p.t),
+        q: p.q.iter().map(|&(a, b)| (np[a], np[b])).collect(),
+    }
+}
+
+/// `explode` followed by a renumbering of the nodes that depends only on the diagram (so that boundary nodes
+/// are not always the lowest-numbered ones and may come after nodes that a quotient merges away)
+pub fn explode_shuffled<O: Lbl, A: Lbl>(p: &POh<O, A>) -> PLax<O, A> {
+    let e = explode(p);
+    let np = crate::rng::Rng(crate::ctx::hash_of(p) | 1).perm(e.w.len());
+    renumber_lax(&e, &np)
+}
